@@ -11,7 +11,7 @@ use std::collections::BTreeMap;
 use std::rc::Rc;
 
 /// (name, text, dependencies as pool indices)
-const POOL: [(&str, &str, &[usize]); 18] = [
+const POOL: [(&str, &str, &[usize]); 22] = [
     ("m", "?? the metre\nm !meter\n", &[]),
     ("kilo", "kilo- 1000\n", &[]),
     ("k", "k-- kilo\n", &[1]),
@@ -30,6 +30,11 @@ const POOL: [(&str, &str, &[usize]); 18] = [
     ("stuff", "stuff {\n    heaviness weight 3 d1 / size 2 m\n}\n", &[6]),
     ("milli", "milli- 1|kilo\n", &[1]),
     ("cat", "!category cat \"Cat\"\n!endcategory\n", &[]),
+    // a name with two valid prefix splits (d+am, da+m) referenced by a unit that sorts first
+    ("d", "d-- 1|10\n", &[]),
+    ("da", "da-- 10\n", &[]),
+    ("am", "am 7 m\n", &[0]),
+    ("a_x", "a_x 2 dam\n", &[0, 18, 19, 20]),
 ];
 
 fn pool_entries(i: usize) -> Vec<DefEntry> {
@@ -218,7 +223,7 @@ impl Space for C12 {
         Meta {
             id: "C12",
             level: "exploration",
-            rule: "(a) all 5040 permutations of every dependency-closed 7-subset (quick: every 4th) of an 18-definition pool (4-long alias chain, diamond, dependency reachable only through a prefix split / only through a plural, long+short prefixes defined through each other, quantities, a substance, category, docs); (b) the bundled database reversed, sorted by name ascending/descending, in dependency-reversed order, and under every rotation (quick: every 24th); (c) a 6-definition extension set distributed over ./definitions.units and $XDG_CONFIG_HOME/rink/definitions.units in all 2^6 assignments x both internal orders through the real `rink --dump`. Oracle: byte-identical Debug dump of the whole Registry and identical error multiset versus the reference order. Non-trivial = all; distinct by the order used".into(),
+            rule: "(a) all 5040 permutations of every dependency-closed 7-subset (quick: every 4th) of a 22-definition pool (4-long alias chain, diamond, dependency reachable only through a prefix split / only through a plural, long+short prefixes defined through each other, quantities, a substance, category, docs); (b) the bundled database reversed, sorted by name ascending/descending, in dependency-reversed order, and under every rotation (quick: every 24th); (c) a 6-definition extension set distributed over ./definitions.units and $XDG_CONFIG_HOME/rink/definitions.units in all 2^6 assignments x both internal orders through the real `rink --dump`. Oracle: byte-identical Debug dump of the whole Registry and identical error multiset versus the reference order. Non-trivial = all; distinct by the order used".into(),
             assumptions: vec![
                 "premise of the statement: uniquely named definitions - entries sharing (namespace, name) in the shipped file are reduced to their last occurrence before permuting (listed in the evidence)".into(),
                 "Debug of Registry shows every field".into(),
